@@ -646,6 +646,12 @@ class NP:
         return _np.vstack([obj(x) if _has_sym(x) else x for x in xs])
     def hstack(self, xs):
         xs = list(xs)
+        if xs and all(isinstance(x, RowArr) for x in xs):
+            # (N,k1), (N,k2), ... side by side: the generic row's values concatenated
+            from .frames import _same_space
+            for x in xs[1:]:
+                _same_space(xs[0].space, x.space, "hstack of per-row arrays")
+            return RowArr([v for x in xs for v in x.vals], xs[0].space, xs[0].present)
         if any(isinstance(x, _Generic) for x in xs): raise Unsupported("hstack of generic arrays")
         return _np.hstack([obj(x) if _has_sym(x) else x for x in xs])
     def concatenate(self, xs, axis=0):
